@@ -297,6 +297,7 @@ type Meta struct {
 	Panic       string   `json:"panic,omitempty"`
 	CondsNew    []string `json:"conds_new,omitempty"`     // conditions present with the payload, absent with the benign value
 	CondsGone   []string `json:"conds_gone,omitempty"`    // and vice versa
+	Gate        string   `json:"gate,omitempty"`          // the sibling/ancestor field varied together with the leaf
 	SameAsUnset bool     `json:"same_as_unset,omitempty"` // (empty probe) the files equal those generated with the field unset
 }
 
@@ -335,6 +336,7 @@ type Config struct {
 	Thorough bool
 	Combos   int    // random combination payloads per leaf
 	Only     string // substring filter on the leaf path (replay)
+	Levels   int    // struct levels above a leaf whose gate fields are varied with it (0 = no gating search)
 	Stride   int    // take every Stride-th payload (rotated by seed) for leaves whose benign value does not reach the files; 1 = all
 	Workers  int
 }
@@ -351,7 +353,14 @@ type leafResult struct {
 	stats map[string]int
 }
 
-func probeLeaf(base Base, variant Variant, objs0 []client.Object, r0 Run, l Leaf, cfg Config, r *rng.R, rot int) leafResult {
+// gatePayloads is the reduced family used in the leaf x gate contexts.
+var gatePayloads = []Payload{
+	suffix("semicolon", ";"+Marker), suffix("load-module", "\";\nload_module /"+Marker+".so;#"), suffix("dollar-var", "$"+Marker),
+	suffix("trailing-backslash", Marker+"\\"), suffix("space", " "+Marker), suffix("open-brace", "{"+Marker),
+}
+
+func probeLeaf(base Base, variant Variant, objs0 []client.Object, r0 Run, l Leaf, cfg Config, r *rng.R, rot int,
+	gates []Gate) leafResult {
 	res := leafResult{stats: map[string]int{}}
 	st := res.stats
 	st["leaftype:"+l.Type]++
@@ -437,6 +446,66 @@ func probeLeaf(base Base, variant Variant, objs0 []client.Object, r0 Run, l Leaf
 			st["payload-reaches-files"]++
 		}
 	}
+	// leaf x gate: the same leaf with one sibling / enclosing optional field or discriminator changed
+	if !l.Meta && variant.Name == "valid" && cfg.Levels > 0 && !strings.Contains(l.Path, "{") {
+		for _, g := range GatesFor(l.Path, gates, cfg.Levels) {
+			for _, alt := range g.Alts {
+				oc := CopyObjs(objs0)
+				if !ApplyGate(oc[l.Obj], g.Path, alt) {
+					continue
+				}
+				benC := benign
+				if !reaches {
+					benC = l.Value + Marker
+				}
+				ob := CopyObjs(oc)
+				if !SetLeaf(ob[l.Obj], l.Path, benC) {
+					continue
+				}
+				rb := doRun(ob, base.Opts)
+				st["runs"]++
+				st["gate-contexts"]++
+				if rb.Panic != "" || rb.NoConf {
+					st["gate-contexts-without-config"]++
+					continue
+				}
+				reachesC := rb.hasMarker()
+				fam := gatePayloads
+				if !reachesC {
+					fam = gatePayloads[:1]
+				} else {
+					st["gate-contexts-reaching-config"]++
+				}
+				desc := gateDesc(g.Path, alt)
+				wroteC := false
+				for _, pl := range fam {
+					op := CopyObjs(oc)
+					val := pl.Make(benC)
+					if !SetLeaf(op[l.Obj], l.Path, val) {
+						continue
+					}
+					rr := doRun(op, base.Opts)
+					st["runs"]++
+					m := &Meta{
+						Base: base.Name, Variant: variant.Name, Kind: l.Kind, Path: l.Path, Generic: l.Generic(),
+						Type: l.Type, Class: pl.Class, Value: val, Benign: benC, Reaches: reachesC, Panic: rr.Panic,
+						CondsNew: diffConds(rr.Conds, rb.Conds), CondsGone: diffConds(rb.Conds, rr.Conds), Gate: desc,
+					}
+					if len(m.Panic) > 600 {
+						m.Panic = m.Panic[:600]
+					}
+					if !wroteC {
+						res.recs = append(res.recs, record{tag: "B", label: base.Name + "/" + variant.Name + "/" + l.Path + " @ " + desc,
+							files: reduceFiles(rb.Files)})
+						wroteC = true
+						wroteB = false // the next record of the base context needs its baseline again
+					}
+					res.recs = append(res.recs, record{tag: "P", files: reduceFiles(rr.Files), meta: m})
+					st["class:gated-"+pl.Class]++
+				}
+			}
+		}
+	}
 	// *string leaves: the empty string is a value of its own (not "unset"). It must be rejected, or be
 	// equivalent to the unset field, or leave the token skeleton of the benign run intact.
 	if l.Ptr && !l.Meta && reaches {
@@ -488,6 +557,11 @@ func Search(w *bufio.Writer, cfg Config) (stats map[string]int) {
 	}
 	p.CertPair(1)
 	p.CertPair(7)
+	var scen [][]client.Object
+	for _, b := range Bases() {
+		scen = append(scen, b.Objs)
+	}
+	pool := TypePool(scen...)
 	em := &emitter{w: w, ids: map[string]int{}}
 	id := 0
 	for _, base := range Bases() {
@@ -523,6 +597,14 @@ func Search(w *bufio.Writer, cfg Config) (stats map[string]int) {
 				}
 			}
 			stats["leaves"] += len(leaves)
+			gatesByObj := map[int][]Gate{}
+			if cfg.Levels > 0 && variant.Name == "valid" {
+				for i, o := range objs0 {
+					if !coreKinds[p.KindOf(o)] {
+						gatesByObj[i] = Gates(o, pool)
+					}
+				}
+			}
 			results := make([]chan leafResult, len(leaves))
 			sem := make(chan struct{}, cfg.Workers)
 			for i := range leaves {
@@ -532,7 +614,7 @@ func Search(w *bufio.Writer, cfg Config) (stats map[string]int) {
 				go func(i int) {
 					sem <- struct{}{}
 					defer func() { <-sem }()
-					results[i] <- probeLeaf(base, variant, objs0, r0, leaves[i], cfg, lr, rot)
+					results[i] <- probeLeaf(base, variant, objs0, r0, leaves[i], cfg, lr, rot, gatesByObj[leaves[i].Obj])
 				}(i)
 			}
 			for i := range leaves {
